@@ -1,4 +1,4 @@
-use std::collections::HashMap;
+use std::collections::BTreeMap;
 use std::fs::{File, OpenOptions};
 use std::io::{BufReader, Read, Seek, SeekFrom, Write};
 
@@ -124,13 +124,14 @@ impl FileInfo {
 
 #[derive(Default)]
 pub struct FileManager {
-    handle_map: HashMap<FileHandle, FileInfo>,
+    // ordered by handle: LSET looks for its variable in the FIELD lists of the files in that order
+    handle_map: BTreeMap<FileHandle, FileInfo>,
 }
 
 impl FileManager {
     pub fn new() -> Self {
         Self {
-            handle_map: HashMap::new(),
+            handle_map: BTreeMap::new(),
         }
     }
 
